@@ -91,6 +91,13 @@ type txWithIndex struct {
 // inputs to double check transactions that are in the block but were already processed.
 // This is necessary if the block is not sorted in topological order.
 func (bf *blockFilterer) checkFilterTx(tx *bchutil.Tx, txIndex int, inputs map[chainhash.Hash][]*txWithIndex) {
+	// A transaction that already matched has updated the filter and had its
+	// dependants re-checked.  Visiting it again changes nothing, but doing so
+	// for every path through the spend graph is exponential in the length of
+	// a chain whose transactions each spend two outputs of their parent.
+	if bf.matchedIndices[txIndex] {
+		return
+	}
 	if bf.filter.MatchTxAndUpdate(tx) {
 		bf.matchedIndices[txIndex] = true
 		if dependentTxs, ok := inputs[tx.MsgTx().TxHash()]; ok {
